@@ -417,6 +417,20 @@ fn drive_worker(kind_pool: PoolKind, kind: Traffic, id: u64, seed: u64, n: u64, 
 }
 
 fn judge(ctx: &mut Ctx, path: &str, kind: Traffic, n: u64, seg: usize, v: &Verdict, limit: i64) {
+    // "neither grows with the number of bytes or segments the connection has already carried":
+    // every buffer limit is reached long before half of the run, so what is retained at the end
+    // must not exceed what was retained at half time by more than 64 KiB (a leak of a few dozen
+    // bytes per segment stays far below the absolute limit within the quick tier's length)
+    let half = v.live_samples.iter().filter(|(i, _)| *i >= n / 2).map(|(_, l)| *l).next();
+    let last = v.live_samples.last().map(|(_, l)| *l);
+    let second_half_growth = match (half, last) {
+        (Some(h), Some(l)) if v.live_samples.len() >= 8 => l - h,
+        _ => 0,
+    };
+    ctx.judge(second_half_growth <= 64 * 1024, &[], "retained memory keeps growing in the second half of a long connection", || {
+        json!({"path": path, "traffic": format!("{kind:?}"), "segments": n, "segment_payload_bytes": seg, "growth_in_second_half_bytes": second_half_growth, "retained_samples": v.live_samples})
+    });
+    ctx.class_n(&format!("second_half_growth_kib/{path}/{kind:?}"), (second_half_growth.max(0) as u64) / 1024);
     let ok = v.max_live <= limit && v.max_alloc_excess == 0;
     ctx.judge(ok, &[], "retained memory or per-packet work grows with the amount of traffic a connection has carried", || {
         json!({
@@ -571,6 +585,54 @@ pub fn run(ctx: &mut Ctx) {
         });
         ctx.bucket(&format!("capacity/{which:?}/cap{cap}{}", if light { "/light" } else { "" }));
         ctx.class_n(&format!("max_retained_kib/capacity-{which:?}-{cap}"), (max_live.max(0) as u64) / 1024);
+    }
+    // a producer that is faster than the workers, at the smallest queue sizes (0, 1, 2): what the
+    // pool holds on to is bounded by its queues and tables, not by the traffic offered to it
+    for (pk, queue) in [(PoolKind::Http, 0usize), (PoolKind::Tls, 0), (PoolKind::Tcp, 0), (PoolKind::Http, 1), (PoolKind::Tls, 2)] {
+        idx += 1;
+        if !ctx.mine(idx) || ctx.miri() {
+            continue;
+        }
+        let cfg = PoolCfg { workers: 1, queue, batch: 32, timeout_ms: 1, max_conn: 16, with_db: false };
+        pool::reset_log(0, 0);
+        let Ok(h) = Handle::new(pk, &cfg, Filters::none()) else { continue };
+        let kind = match pk {
+            PoolKind::Http => Traffic::HttpHeadNeverCompletes,
+            PoolKind::Tls => Traffic::TlsHugeDeclaredRecord,
+            PoolKind::Tcp => Traffic::TimestampedAcks,
+        };
+        let mut conn = LongConn::new(kind, 300_000 + idx, ctx.seed, 1400);
+        for f in conn.prelude() {
+            let _ = h.dispatch(f);
+        }
+        std::thread::sleep(Duration::from_millis(20));
+        let _ = h.drain_results();
+        let _ = pool::take_events();
+        alloc::track_global(true);
+        let base = alloc::global_snap();
+        let mut max_live = 0i64;
+        let mut accepted = 0u64;
+        let offered = ctx.scale(20_000, 200_000, 100);
+        for i in 0..offered {
+            if h.dispatch(conn.next_frame()) {
+                accepted += 1;
+            }
+            if i % 64 == 0 {
+                max_live = max_live.max(alloc::global_snap().live() - base.live());
+                let _ = h.drain_results();
+                let _ = pool::take_events();
+            }
+        }
+        max_live = max_live.max(alloc::global_snap().live() - base.live());
+        alloc::track_global(false);
+        let _ = h.wait_drain(pool::log().processed.load(std::sync::atomic::Ordering::SeqCst), Duration::from_secs(5));
+        h.shutdown();
+        let limit = 2 * L;
+        ctx.judge(max_live <= limit, &[], "a pool with a tiny queue retains memory in proportion to the traffic offered to it", || {
+            json!({"pool": format!("{pk:?}"), "queue_size": queue, "frames_offered": offered, "frames_accepted": accepted, "max_retained_bytes": max_live, "limit": limit})
+        });
+        ctx.bucket(&format!("flood/worker-{pk:?}/queue{queue}"));
+        ctx.class_n(&format!("max_retained_kib/flood-{pk:?}-queue{queue}"), (max_live.max(0) as u64) / 1024);
     }
     // the same inside a worker: the capacity handed to the pool (directly, or through the
     // analyzer's with_config + init_pool) bounds what one worker retains, whatever the queue
